@@ -79,7 +79,7 @@ func (n gnode) build() any {
 	case "leaf":
 		return n.leaf()
 	case "cond":
-		c := stackage.Cond(n.Kw, stackage.ComparisonOperator(n.Op), n.Kids[0].build())
+		c := condHistory(n.Kw, stackage.ComparisonOperator(n.Op), n.Kids[0].build(), fillMode(n.Kw+fmt.Sprint(n.Op, len(n.Kids))))
 		if n.Paren {
 			c.SetParen(true)
 		}
